@@ -152,7 +152,36 @@ def sets_body(kind):
         P = _demo()
         patches, stub = _patches(env, ap, au, apar)
         with patches:
-            if kind == "parset":
+            if kind == "parset_links":
+                # uncertainty entered on transfers and interactions (stored apart from the ordinary parameters)
+                import checks.C06  # registers M11 (two populations, interaction weights)
+                from checks.modelstep import project
+
+                P = project("M11", 3, 0.25, pops=2, transfers=1)
+                src = copy.deepcopy(P.parsets[0])
+                targets = []
+                for gname in ("transfers", "interactions"):
+                    for nm, d in getattr(src, gname).items():
+                        for srcpop, par in d.items():
+                            for dst, ts in par.ts.items():
+                                if ts.has_data:
+                                    ts.sigma = env.real("sigma|%s|%s|%s>%s" % (gname, nm, srcpop, dst), 0, 2)
+                                    targets.append((gname, nm, srcpop, dst))
+                env.claim("transfer_and_interaction_entries_present", env.true(len({t[0] for t in targets}) == 2), key="setup")
+                before = _numbers(src)
+                new = src.sample()
+                after = _numbers(src)
+                for k, (gname, nm, srcpop, dst) in enumerate(targets):
+                    a, b = getattr(src, gname)[nm][srcpop].ts[dst], getattr(new, gname)[nm][srcpop].ts[dst]
+                    dr = stub.draws[k] if k < len(stub.draws) else None
+                    if dr is None:
+                        env.claim("sample_perturbs|%s|%s|%s>%s" % (gname, nm, srcpop, dst), env.true(False), key="parset_sample_links")
+                        continue
+                    conds = [env.eq(y, x + a.sigma * dr) for x, y in zip(a.vals, b.vals)]
+                    if a.assumption is not None:
+                        conds.append(env.eq(b.assumption, a.assumption + a.sigma * dr))
+                    env.claim("sample_perturbs|%s|%s|%s>%s" % (gname, nm, srcpop, dst), env.all(conds), key="parset_sample_links")
+            elif kind == "parset":
                 src = copy.deepcopy(P.parsets[0])
                 targets = []
                 for pname in list(src.pars.keys())[:2]:
@@ -268,6 +297,7 @@ def specs(tier):
         for sk in ("sym", "none", "zero"):
             out.append(("covout[interactions=%s;sigma=%s]" % (inter, sk), covout_body, dict(interactions=inter, sigma_kind=sk)))
     out.append(("parset_sample[udt]", sets_body, dict(kind="parset")))
+    out.append(("parset_sample[M11;transfers and interactions]", sets_body, dict(kind="parset_links")))
     out.append(("progset_sample[udt]", sets_body, dict(kind="progset")))
     out.append(("run_sampled_sim[parset only]", runner_body, dict(with_progset=False)))
     out.append(("run_sampled_sim[with progset]", runner_body, dict(with_progset=True)))
